@@ -87,6 +87,11 @@ func Loopback(cfg *lime.TCPConfig) (lime.Transport, lime.Transport, func(), erro
 // Established builds a client and a server channel over the given transports and runs the real
 // guest handshake on both; the registration callback assigns `node`.
 func Established(ct, st lime.Transport, buf int, sid string, node lime.Node) (*lime.ClientChannel, *lime.ServerChannel, error) {
+	return EstablishedEnc(ct, st, buf, sid, node, st.Encryption())
+}
+
+// EstablishedEnc is Established for transports that already are on the given encryption.
+func EstablishedEnc(ct, st lime.Transport, buf int, sid string, node lime.Node, enc lime.SessionEncryption) (*lime.ClientChannel, *lime.ServerChannel, error) {
 	sc := lime.NewServerChannel(st, buf, ServerNode, sid)
 	cc := lime.NewClientChannel(ct, buf)
 	ctx, cancel := context.WithTimeout(context.Background(), 10*time.Second)
@@ -95,14 +100,14 @@ func Established(ct, st lime.Transport, buf int, sid string, node lime.Node) (*l
 	go func() {
 		errc <- sc.EstablishSession(ctx,
 			[]lime.SessionCompression{lime.SessionCompressionNone},
-			[]lime.SessionEncryption{lime.SessionEncryptionNone},
+			[]lime.SessionEncryption{enc},
 			[]lime.AuthenticationScheme{lime.AuthenticationSchemeGuest},
 			func(context.Context, lime.Identity, lime.Authentication) (*lime.AuthenticationResult, error) {
 				return lime.MemberAuthenticationResult(), nil
 			},
 			func(context.Context, lime.Node, *lime.ServerChannel) (lime.Node, error) { return node, nil })
 	}()
-	ses, err := cc.EstablishSession(ctx, lime.NoneCompressionSelector, lime.NoneEncryptionSelector,
+	ses, err := cc.EstablishSession(ctx, lime.NoneCompressionSelector, func([]lime.SessionEncryption) lime.SessionEncryption { return enc },
 		lime.Identity{Name: node.Name, Domain: node.Domain}, lime.GuestAuthenticator, node.Instance)
 	if err != nil {
 		return nil, nil, fmt.Errorf("client establish: %w", err)
